@@ -631,3 +631,114 @@ def prog():
             g, ie_, one = self._between[0]
             d["F.state_after_statement_is_state_before_the_elif_region"] = And(now["guard"] is g, now["ONE"] is one, formula(now["ie"]) == formula(ie_))
         return d
+
+
+class _CopiesOnlyNTimes:
+    """a branch variable whose deep copy succeeds `n` times and then fails (an open file, a lock, a generator, a
+    handle with a copy budget...): the snapshot a region takes of the branch variables can fail at ANY entry."""
+
+    def __init__(self, n):
+        self.left = n
+
+    def __deepcopy__(self, memo):
+        if self.left <= 0:
+            raise TypeError("cannot copy this value any more")
+        self.left -= 1
+        return self
+
+
+@register
+class SchemaEntryFailsAtomically(_Schema):
+    """Entering (or re-entering) a region snapshots the branch variables; a variable that cannot be copied makes that
+    fail with the variable's own exception.  A failed entry is no entry: the guard, the error flag and the constant one
+    are what they were before the construct was called (C08) -- nothing holds the saved state of a region that was
+    never pushed, so nothing could ever restore it."""
+    name = "pysnark.branching:BranchContext.enter#snapshot_fails"
+    vprops = ("C08",)
+    fprops = ("C08", "C09")
+    cprops = tprops = ()
+    skip_facets = "CTN"
+    raises_unspecified = True
+    covers_normal = False
+
+    PROGRAMS = {
+        "if": """
+def prog():
+    _ = BranchingValues()
+    _.h = handle
+    _if(a)
+    reached.append("entered")
+""",
+        "if_elif": """
+def prog():
+    _ = BranchingValues()
+    _.h = handle
+    if _if(a):
+        reached.append("first")
+    if _elif(lambda: b):
+        reached.append("entered")
+""",
+        "if_else": """
+def prog():
+    _ = BranchingValues()
+    _.h = handle
+    if _if(a):
+        reached.append("first")
+    if _else():
+        reached.append("entered")
+""",
+        "while": """
+def prog():
+    _ = BranchingValues()
+    _.h = handle
+    _while(a)
+    reached.append("entered")
+""",
+        "while_breakif": """
+def prog():
+    _ = BranchingValues()
+    _.h = handle
+    _while(a)
+    reached.append("first")
+    _breakif(b)
+    reached.append("entered")
+""",
+        "for": """
+def prog():
+    _ = BranchingValues()
+    _.h = handle
+    for i in _range(a, max=2):
+        reached.append("entered")
+""",
+        "for_second_iteration": """
+def prog():
+    _ = BranchingValues()
+    _.h = handle
+    for i in _range(a, max=2):
+        reached.append("first" if i == 0 else "entered")
+""",
+    }
+    SECOND = ("if_elif", "if_else", "while_breakif", "for_second_iteration")
+
+    def configs(self, tier):
+        return [dict(program=p, outer=o, bits=3) for p in self.PROGRAMS for o in ("none", "live")] + \
+               [dict(program="if", outer="none", bits=3, handle="generator")]
+
+    def setup(self, c, cfg):
+        apply_mode(c, "g1" if cfg["outer"] == "live" else "plain", bitlength=cfg["bits"])
+        br = self.br(c)
+        a, b = _cond(c, "secret_lc", "a"), _cond(c, "secret_lc", "b")
+        handle = (i for i in ()) if cfg.get("handle") == "generator" else _CopiesOnlyNTimes(1 if cfg["program"] in self.SECOND else 0)
+        self._reached = []
+        return c.client(self.PROGRAMS[cfg["program"]], a=a, b=b, handle=handle, reached=self._reached, **API(br)), (), {}
+
+    def pre(self, c):
+        return [(1 << (c.bitlength + 1)) < c.p]
+
+    def post(self, c, r, *a_):
+        return {"V.entry_without_a_snapshot_is_refused": False}
+
+    def post_exc(self, c, e, *a, **k):
+        return {"V.the_failing_entry_was_not_made": "entered" not in self._reached,
+                "V.fails_with_the_variable's_own_exception": isinstance(e, TypeError),
+                "F.guard_state_restored": self.state_clean(c)}
